@@ -280,7 +280,10 @@ class HedSchemaTagSection(HedSchemaSection):
         # Sort the extension allowed lists
         for values in split_list:
             node = values[0]
-            if node.has_attribute(HedKey.ExtensionAllowed):
+            # A group holding library entries under partner entries (a rooted sub-tree) must be sorted too: a library
+            # entry appended after the whole partner group is written below the wrong parent by the MediaWiki writer.
+            mixes_library = len({entry.has_attribute(HedKey.InLibrary) for entry in values}) > 1
+            if node.has_attribute(HedKey.ExtensionAllowed) or mixes_library:
                 # Make sure we sort / characters to the front.
                 values.sort(key=lambda x: x.long_tag_name.replace("/", "\0"))
 
